@@ -14,10 +14,17 @@ def load_keys():
 
 
 def find_generic_method(ctx, adt, name):
+    hits = []
     for f in ctx.facts['fns']:
         st = f.get('impl_self')
         if f['name'] == name and st and st.get('k') == 'adt' and st.get('path') == adt and not f.get('impl_trait'):
-            return f
+            hits.append(f)
+    if len(hits) > 1:
+        # the same method defined in several impl blocks (e.g. one per concrete scancode set): "analysed once,
+        # parametrically" no longer covers every instantiation
+        raise Undecided('%s::%s is defined in %d impl blocks (%s)' % (adt, name, len(hits), ', '.join(h['sp'] for h in hits)))
+    if hits:
+        return hits[0]
     raise Undecided('anchor %s::%s not found' % (adt, name))
 
 
